@@ -59,6 +59,10 @@ type scenario struct {
 	// is Key) handed to NewModel - the storage id and the key field are unrelated. The List RPCs sort by the key
 	// field, so paging must be right as long as the key fields are pairwise different and not empty.
 	Raw []rawRec `json:"raw,omitempty"`
+	// Payload: what the records (initial, raw and created ones) carry BESIDES their key, where the model has write
+	// paths that depend on it (vending inventory: the units the quantities are kept in decide whether a Dispense
+	// succeeds, fails at once or fails half-way, see rpc.stock). 0 = nothing but the key (and the witness field).
+	Payload int `json:"payload,omitempty"`
 }
 
 type rawRec struct {
@@ -107,6 +111,8 @@ type storeOp struct {
 	// AcknowledgePublication (a masked update of an existing publication); "dispense" = vending Dispense (an update
 	// of an existing stock). Only where the server has such an RPC.
 	Via string `json:"via,omitempty"`
+	// Unit of the quantity of a vending Dispense: "" = unspecified, "l" = litres, "kg" = kilograms
+	Unit string `json:"unit,omitempty"`
 }
 
 func (op storeOp) String() string {
@@ -128,6 +134,9 @@ func (op storeOp) String() string {
 	}
 	if op.Via != "" {
 		s += ":via=" + op.Via
+	}
+	if op.Unit != "" {
+		s += ":unit=" + op.Unit
 	}
 	return s
 }
@@ -390,6 +399,10 @@ func runOp(inst *instance, op storeOp) (out string, got string) {
 	case op.Kind == "update" && op.ID == "":
 		return "rejected", "" // no item can be stored under the empty id: any error status will do
 	}
+	if op.Via == "dispense" && codeName(err) == "Unknown" {
+		// not a status: the error the write interceptor recorded (unit conversion); the write itself went through
+		return "failed", ""
+	}
 	switch codeName(err) {
 	case "AlreadyExists":
 		return "exists", ""
@@ -521,6 +534,7 @@ func (sc scenario) run() (res runResult, err error) {
 	if sc.NInit < 0 || sc.NInit > len(sc.IDs) {
 		return res, fmt.Errorf("ninit %d out of range", sc.NInit)
 	}
+	r.Payload = sc.Payload
 	ropts := icptOpts(sc.Icpt)
 	for _, rr := range sc.Raw {
 		ropts = append(ropts, r.rawInit(rr))
@@ -540,18 +554,19 @@ func (sc scenario) run() (res runResult, err error) {
 	res.base = sc.collection()
 	// the harness's own set oracle: storage id (the id as the interceptor maps it) -> key field as last written,
 	// in insertion order
-	orc := &oracle{norm: icptFn(sc.Icpt)}
+	orc := &oracle{norm: icptFn(sc.Icpt), pay: sc.Payload}
 	for _, id := range res.base {
-		orc.entries = append(orc.entries, entry{orc.norm(id), id})
+		orc.entries = append(orc.entries, entry{orc.norm(id), id, sc.Payload})
 	}
 	for _, rr := range sc.Raw {
-		orc.entries = append(orc.entries, entry{orc.norm(rr.SID), rr.Key})
+		orc.entries = append(orc.entries, entry{orc.norm(rr.SID), rr.Key, sc.Payload})
 	}
 	for _, op := range sc.Ops {
 		out, got := runOp(inst, op)
 		if out == "unsupported" {
 			return res, fmt.Errorf("%s has no %q operation", sc.RPC, op.Kind)
 		}
+		got = orc.hookOf(op, got)
 		res.ops = append(res.ops, out)
 		res.gen = append(res.gen, got)
 		orc.apply(op, out, got)
@@ -612,6 +627,7 @@ func (sc scenario) run() (res runResult, err error) {
 		if !parked {
 			res.inflightEarly = true
 			out, got = finish()
+			got = orc.hookOf(op, got)
 			orc.apply(op, out, got)
 			res.coll, res.wantList = orc.present(), orc.byStorage()
 			reindex()
@@ -623,6 +639,7 @@ func (sc scenario) run() (res runResult, err error) {
 		res.inflight = "returned"
 		if parked {
 			out, got = finish()
+			got = orc.hookOf(op, got)
 			res.inflight = "parked+returned"
 			orc.apply(op, out, got)
 		}
@@ -652,7 +669,7 @@ func (sc scenario) run() (res runResult, err error) {
 		case strings.HasSuffix(out, "accepted"):
 			res.inflightOp = "ok " + hexID(op.ID)
 			if op.Kind == "add" {
-				orc.entries = append(orc.entries, entry{orc.norm(op.ID), op.ID}) // waste: AddWasteRecord
+				orc.entries = append(orc.entries, entry{orc.norm(op.ID), op.ID, 0}) // waste: AddWasteRecord
 			} else {
 				orc.apply(op, res.inflightOp, op.ID)
 			}
@@ -691,12 +708,16 @@ func (sc scenario) run() (res runResult, err error) {
 	return res, nil
 }
 
-type entry struct{ sid, field string }
+type entry struct {
+	sid, field string
+	pay        int // the payload the record carries now (scenario.Payload until a write without mask replaces the record)
+}
 
 // oracle is the harness's own idea of the contents: storage id (the id as the interceptor maps it) -> key field as
 // last written, in insertion order.
 type oracle struct {
 	norm    func(string) string
+	pay     int // the payload records created through the creation API carry
 	entries []entry
 }
 
@@ -721,14 +742,14 @@ func (o *oracle) apply(op storeOp, out, got string) {
 			}
 		}
 		if o.find(id) < 0 {
-			o.entries = append(o.entries, entry{o.norm(id), id})
+			o.entries = append(o.entries, entry{o.norm(id), id, o.pay})
 		}
 	case "ensure":
 		if op.ID == "" {
 			return
 		}
 		if i := o.find(op.ID); i < 0 {
-			o.entries = append(o.entries, entry{o.norm(op.ID), op.ID})
+			o.entries = append(o.entries, entry{o.norm(op.ID), op.ID, 0})
 		} else if op.Alt {
 			o.entries[i].field = op.ID // AddChildTrait writes {Name: name}: an existing child is re-spelled
 		}
@@ -742,15 +763,32 @@ func (o *oracle) apply(op storeOp, out, got string) {
 		if i := o.find(op.ID); i >= 0 {
 			if strings.HasPrefix(out, "ok") {
 				o.entries[i].field = op.ID
+				if op.Mask == "" && op.Via != "dispense" && op.Via != "ack" {
+					o.entries[i].pay = 0 // no update mask: the stored message is replaced by the written one
+				}
 			}
 		} else if op.Upsert {
-			o.entries = append(o.entries, entry{o.norm(op.ID), op.ID})
+			o.entries = append(o.entries, entry{o.norm(op.ID), op.ID, 0})
 		}
 	case "delete":
 		if i := o.find(op.ID); i >= 0 {
 			o.entries = append(o.entries[:i:i], o.entries[i+1:]...)
 		}
 	}
+}
+
+// hookOf: for a write that carries a write interceptor of the model (vending Dispense) the behaviour of the callback
+// as the Lean model takes it - "w": it leaves the written key alone, "r": it makes the message a copy of the stored
+// one and records an error - predicted from the payload the record carries now and the unit dispensed (an absent
+// record never reaches the callback). Other ops: got unchanged.
+func (o *oracle) hookOf(op storeOp, got string) string {
+	if op.Via != "dispense" {
+		return got
+	}
+	if i := o.find(op.ID); i >= 0 && dispenseFails(o.entries[i].pay, op.Unit) {
+		return "r"
+	}
+	return "w"
 }
 
 // present: the key fields in insertion order.
@@ -908,6 +946,10 @@ func (sc scenario) opLine(op storeOp, gen string) string {
 	case "add":
 		line += " " + hexID(gen)
 	case "update":
+		if op.Via == "dispense" {
+			// Update*(message, InterceptBefore(callback)); gen: what the callback does ("w" | "r", oracle.hookOf)
+			return "sop hook " + hexID(op.ID) + " " + gen
+		}
 		up, mk := 0, "n"
 		if op.Upsert {
 			up = 1
@@ -935,7 +977,7 @@ func (sc scenario) opLine(op storeOp, gen string) string {
 }
 
 func opKey(rpcName, what string, op storeOp, out string) string {
-	return fmt.Sprintf("%s|%s|%s|%v|%v|%v|%v|%s|%v|%s|%s", rpcName, what, op.Kind, op.ID == "", op.Alt, op.MsgID != "", op.Upsert, op.Mask, op.AllowMissing, op.Via, strings.SplitN(out, " ", 2)[0])
+	return fmt.Sprintf("%s|%s|%s|%v|%v|%v|%v|%s|%v|%s|%s", rpcName, what, op.Kind, op.ID == "", op.Alt, op.MsgID != "", op.Upsert, op.Mask, op.AllowMissing, op.Via+op.Unit, strings.SplitN(out, " ", 2)[0])
 }
 
 func maskShowsKey(rpcName string, mask []string) bool {
